@@ -116,7 +116,7 @@ CStep(c, iv, o) ==
                                        ELSE [par |-> ep[i].par, k |-> ep[i].k + 1])
                                  ELSE ep[i]]
   /\ hold'  = [i \in 1..MAXN |-> IF i \in N /\ offered[i] /\ ~mfire[i] THEN MTok(iv, i) ELSE <<>>]
-  /\ selh'  = IF Len(c.sels) > 1 /\ (\E i \in N : offered[i] /\ ~mfire[i] /\ ep[i].k = 0) THEN Sel(c, iv) ELSE -1
+  /\ selh'  = IF Len(c.sels) + Len(c.badsels) > 1 /\ (\E i \in N : offered[i] /\ ~mfire[i] /\ ep[i].k = 0) THEN Sel(c, iv) ELSE -1
   /\ q'     = [i \in 1..MAXN |-> IF i \in N /\ Len(q2[i]) <= c.cap THEN q2[i] ELSE q[i]]
   /\ pend'  = [i \in 1..MAXN |-> IF i \in N /\ ~mfire[i] THEN pend1[i] ELSE 0]
   /\ dest'  = [i \in 1..MAXN |-> IF i \in N /\ mfire[i] /\ ep[i].k = 0 THEN dview[i] ELSE dest[i]]
